@@ -9,3 +9,5 @@
 package ast
 
 //@ typeinv ast.BackendDeclaration self.Meta != nil && self.Name != nil
+//@ typeinv ast.AclDeclaration self.Meta != nil && self.Name != nil
+//@ typeinv ast.AclCidr self.Meta != nil && self.IP != nil
